@@ -942,6 +942,15 @@ def r3b(cx):
     # (2) the disposition is installed whenever the option is Ignore
     sd = Q.find_calls(body, ['*::SignalSystem::set_disposition'])
     cx.require(sd, 'enter_subshell no longer calls SignalSystem::set_disposition')
+    # (3) the records are updated before the fallible system call: a failure of set_disposition must not leave the
+    #     parent's command trap (or a not-yet-ignored action) in the state the subshell goes on with
+    rec = [b for b, j, s_, kind, f in Q.field_writes(body, GRAND, 'current_state')] + [b for b, t in Q.find_calls(body, ['core::mem::replace'])]
+    late = [b for b in rec if any(st.get('to') is not None and b in body.reachable(st['to']) for _, st in sd)]
+    cx.site('%s: %d updates of the trap record, %d of them only after set_disposition has succeeded' % (body.fn, len(rec), len(late)))
+    if late:
+        cx.violation(fn, 'record-updated-after-syscall', 'the trap record is updated only after set_disposition(..)? has succeeded: when the call '
+                     'fails the function returns with the parent\'s command trap still current in the subshell (`trap` would print it, a signal '
+                     'would run it) although the caller ignores the error and goes on', loc=body.loc(body.term(late[0])))
     for b, t in sd:
         cs = conds(F, body, du, b)
         cmp_dom = [c for c in cs if c[0]['k'] == 'call' and Q.callee_is(c[0]['t'], NE + EQ) and
@@ -952,6 +961,13 @@ def r3b(cx):
                          'Ignore option: Config::start has blocked SIGINT/SIGQUIT before the fork and relies on this call to unblock them, so '
                          '`trap "" INT; cmd &` (and every `cmd &` of an interactive shell without job control, for SIGQUIT) runs cmd with the '
                          'signal left BLOCKED instead of merely ignored', loc=body.loc(t))
+
+
+@RS.rule('C08.R10', 'K-RES', "a waiting subshell does not change the parent's open files: O_NONBLOCK is not left set on a shared open file "
+         'description while the process is suspended (or killed)')
+def r10(cx):
+    from rules.C14 import nonblocking_mode_held_across_await
+    nonblocking_mode_held_across_await(cx)
 
 
 import witness
